@@ -46,3 +46,7 @@ pub struct CsptpState {
     /// Whether the current frequency is traceable.
     pub frequency_traceable: bool,
 }
+
+#[cfg(feature = "pendulum_project_ntpd_rs_verif")]
+#[path = "/verif/hooks/statime-csptp/lib.rs"]
+pub mod verif;
